@@ -264,45 +264,6 @@ M.contract(P_PS + ':parse_sym_ref_or_fragments_from_token', params=dict(token=TO
            raises_only=())
 
 
-# the token stream as the parsers above the lexer see it (the lexer itself: bounded stand-in below)
-class TokenStreamI(Interface):
-    """TokenStream seen from parse_string: `is_null` tells whether there is a head token, `consume()` returns
-    the head (a token satisfying the invariant token_wf -- established by TokenStream.consume, which builds
-    every token as Token(QUOTED if source[0] is a quote else PLAIN, string, source)) and moves on."""
-    target_class = TokenStream
-    attrs = {'is_null': Bool, 'head': Opt(TOKEN)}
-    invariant = staticmethod(lambda self: self.is_null == (self.head is None))
-    methods = {
-        'consume': Method(model=lambda interp, self, args, kwargs: _consume_model(interp, self)),
-    }
-
-
-def _consume_model(interp, ts):
-    head = interp.getattr(ts, 'head')
-    interp.st.emit('consume', ts, head)
-    ts._pv_attrs.pop('head', None)
-    ts._pv_attrs.pop('is_null', None)
-    return head
-
-
-CONF = Inst(parse_string.Configuration, argument_name=Str, reference_restrictions=Any_)
-
-M.contract(P_PS + ':parse_fragments_from_tokens__w_is_plain',
-           params=dict(tokens=Iface(TokenStreamI), conf=CONF),
-           old=lambda tokens: (tokens.is_null, tokens.head),
-           raises={SingleInstructionInvalidArgumentException: {
-               'when': lambda old: old[0] or (old[1][0] is TokenType.PLAIN
-                                              and old[1][2] in reserved_words.RESERVED_TOKENS)}},
-           returns=FixedList(Bool, FRAGMENTS, as_tuple=True),
-           ensures={
-               'is-plain': lambda old, result: result[0] == (old[1][0] is TokenType.PLAIN),
-               'fragments-of-the-head-token': lambda old, result: fragments_of_token(old[1], result[1]),
-               'consumes-exactly-one-token': lambda tokens, old, trace:
-               [e[0] for e in trace] == ['consume'] and trace[0][1] is tokens,
-           },
-           raises_only=())
-
-
 # ------------------------------------------------------------------------------ fragments -> string sdv
 
 def sdv_render(x):
@@ -365,7 +326,12 @@ def _seek_model(interp, sio, args):
 
 
 def ts_inv(self):
-    return self._start_pos <= len(self._source) and self._source_io.pos <= len(self._source)
+    """representation invariant of TokenStream: positions inside the source; a head token and a pending syntax
+    error exclude each other (consume sets a head token only when no error is pending, and sets the head to
+    None when it records an error)"""
+    return (self._start_pos <= len(self._source) and self._source_io.pos <= len(self._source)
+            and (self._head_token is None or self._head_syntax_error_description is None
+                 or self._head_syntax_error_description == ''))
 
 
 TS = Inst(TokenStream, _source=Str, _source_io=Iface(StringIOI), _lexer=Any_, _start_pos=Nat,
@@ -446,8 +412,12 @@ M.contract(P_TS + ':TokenStream._revert_reading_of_newline', params=dict(self=TS
            raises_only=())
 
 # assumed frame of `consume` (see the bounded stand-in): the new head starts where the lexer stood
+def same_token(a, b):
+    return (a is None) == (b is None) and (a is None or (a[0] is b[0] and a[1] == b[1] and a[2] == b[2]))
+
+
 M.contract(P_TS + ':TokenStream.consume', params=dict(self=TS), trusted=True,
-           old=lambda self: self._source_io.pos,
+           old=lambda self: (self._source_io.pos, self._head_token, self._source),
            modifies={'self._start_pos': Nat, 'self._head_token': Opt(TOKEN),
                      'self._head_syntax_error_description': Opt(Str), 'self._lexer': Any_,
                      'self._source_io.pos': Nat},
@@ -455,8 +425,11 @@ M.contract(P_TS + ':TokenStream.consume', params=dict(self=TS), trusted=True,
                                           and self._head_syntax_error_description != ''}},
            returns=Opt(TOKEN),
            ensures={'start-pos-is-the-lexer-position': lambda self, old:
-           self._start_pos == old and old <= self._source_io.pos and self._source_io.pos <= len(self._source)})
-M.trust('TokenStream.consume: raises TokenSyntaxError exactly when a syntax error description is pending (its first statement); the next statement is `self._start_pos = self._source_io.tell()`; '
+           self._start_pos == old[0] and old[0] <= self._source_io.pos and self._source_io.pos <= len(self._source),
+                    'returns-the-old-head': lambda old, result: same_token(result, old[1]),
+                    'invariant': lambda self: ts_inv(self),
+                    'consume-event': (lambda self, old, trace: trace.append(('consume', self, old[1])), 'effect')})
+M.trust('TokenStream.consume: raises TokenSyntaxError exactly when a syntax error description is pending (its first statement); the value returned is the head token as it was (`ret_val = self._head_token`); the next statement is `self._start_pos = self._source_io.tell()`; '
         'the lexer only moves forward and not beyond the end (frame contract; token boundaries: bounded stand-in)')
 
 M.contract(P_TS + ':TokenStream._consume_remaining_part_of_current_line',
@@ -468,6 +441,7 @@ M.contract(P_TS + ':TokenStream._consume_remaining_part_of_current_line',
            returns=Str,
            ensures={
                'source-unchanged': lambda self, old: self._source == old[1],
+               'invariant': lambda self: ts_inv(self),
                'returns-the-rest-of-the-line': lambda old, result: result == current_line_rest(old[1], old[0]),
                'advances-to-the-line-break-or-past-it': lambda self, do_forward_to_next_line, old, result:
                self._start_pos == (old[0] + len(result) if old[0] + len(result) == len(old[1])
@@ -692,3 +666,358 @@ M.contract(P_RS + ':HereDocParser._parse_from_start_str',
                current_line_rest(old[1], _hd_pos(token_parser) - len(here_doc_start[2:])) == here_doc_start[2:],
            },
            raises_only=())
+
+
+# ------------------------------------------------------------------------------ parse_string on a token stream
+
+CONF = Inst(parse_string.Configuration, argument_name=Str, reference_restrictions=Any_)
+
+_TOKENS_FRAME = {'tokens._start_pos': Nat, 'tokens._head_token': Opt(TOKEN),
+                 'tokens._head_syntax_error_description': Opt(Str), 'tokens._lexer': Any_,
+                 'tokens._source_io.pos': Nat}
+
+
+def consume_events(trace):
+    return [e for e in trace if e[0] == 'consume']
+
+
+M.contract(P_PS + ':parse_fragments_from_tokens__w_is_plain', params=dict(tokens=TS, conf=CONF),
+           old=lambda tokens: (tokens._head_token, tokens._source_io.pos, tokens._head_syntax_error_description),
+           modifies=_TOKENS_FRAME,
+           raises={
+               SingleInstructionInvalidArgumentException: {
+                   'when': lambda old: old[0] is None or (old[0][0] is TokenType.PLAIN
+                                                          and old[0][2] in reserved_words.RESERVED_TOKENS)},
+           },
+           returns=FixedList(Bool, FRAGMENTS, as_tuple=True),
+           ensures={
+               'is-plain': lambda old, result: result[0] == (old[0][0] is TokenType.PLAIN),
+               'fragments-of-the-head-token': lambda old, result: fragments_of_token(old[0], result[1]),
+               'consumes-exactly-one-token': (lambda tokens, trace:
+                                              len(consume_events(trace)) == 1 and consume_events(trace)[0][1] is tokens,
+                                              'internal'),
+               'next-head-starts-after-the-token': lambda tokens, old: tokens._start_pos == old[1],
+               'consume-event': (lambda tokens, old, trace: trace.append(('consume', tokens, old[0])), 'effect'),
+           },
+           raises_only=())
+M.contract(P_PS + ':parse_fragments_from_tokens', params=dict(tokens=TS, conf=CONF),
+           old=lambda tokens: (tokens._head_token, tokens._source_io.pos),
+           modifies=_TOKENS_FRAME,
+           raises={SingleInstructionInvalidArgumentException: {
+               'when': lambda old: old[0] is None or (old[0][0] is TokenType.PLAIN
+                                                      and old[0][2] in reserved_words.RESERVED_TOKENS)}},
+           returns=FRAGMENTS,
+           ensures={'fragments-of-the-head-token': lambda old, result: fragments_of_token(old[0], result),
+                    'next-head-starts-after-the-token': lambda tokens, old: tokens._start_pos == old[1],
+                    'consume-event': (lambda tokens, old, trace: trace.append(('consume', tokens, old[0])), 'effect')},
+           raises_only=())
+
+
+# ------------------------------------------------------------------------------ string or symbol name; rich strings
+
+from exactly_lib.impls.types.string_.parse_string import SymbolReferenceOrStringParser  # noqa: E402
+from exactly_lib.impls.types.string_.parse_rich_string import SymbolNameOrStringRichStringParser  # noqa: E402
+
+SROSP = Inst(SymbolReferenceOrStringParser, _conf=CONF)
+
+
+def head_is_reserved(head):
+    return head[0] is TokenType.PLAIN and head[2] in reserved_words.RESERVED_TOKENS
+
+
+M.contract(P_PS + ':SymbolReferenceOrStringParser.parse', params=dict(self=SROSP, token_parser=TP),
+           old=lambda token_parser: (token_parser._token_stream._head_token, token_parser._token_stream._source_io.pos),
+           modifies=_TS_FRAME,
+           raises={SingleInstructionInvalidArgumentException: {
+               'when': lambda old: old[0] is None or head_is_reserved(old[0])}},
+           returns=Any_,
+           ensures={
+               # a plain token that is exactly one reference gives the symbol name, everything else a string whose
+               # fragments are those of the token (hard quoted: one constant)
+               'symbol-name-only-for-a-plain-single-reference': (lambda old, result:
+                                                                 (not result.is_left()) or (
+                                                                         old[0][0] is TokenType.PLAIN
+                                                                         and old[0][1] == render_ref(result.left())
+                                                                         and valid_name(result.left())),
+                                                                 'internal'),
+               'one-token-consumed': (lambda token_parser, old, trace:
+                                      len(consume_events(trace)) == 1 and consume_events(trace)[0][2] is old[0],
+                                      'internal'),
+               'next-head-starts-after-the-token': lambda token_parser, old: _hd_pos(token_parser) == old[1],
+               'consume-event': (lambda token_parser, old, trace:
+                                 trace.append(('consume', token_parser._token_stream, old[0])), 'effect'),
+           },
+           raises_only=())
+
+M.contract(P_PS + ':parse_rest_of_line_as_single_string', params=dict(token_parser=TP, strip_space=Bool),
+           old=lambda token_parser: (_hd_pos(token_parser), _hd_source(token_parser)),
+           modifies=_TS_FRAME,
+           returns=Any_,
+           ensures={
+               'text-until-end-of-line': (lambda strip_space, old, trace:
+                                          len(split_events(trace)) == 1 and split_events(trace)[0][1]['s'] == (
+                                              current_line_rest(old[1], old[0]).strip() if strip_space
+                                              else current_line_rest(old[1], old[0])),
+                                          'internal'),
+               'stops-at-the-line-break': lambda token_parser, old:
+               _hd_pos(token_parser) == old[0] + len(current_line_rest(old[1], old[0]))
+               and _hd_source(token_parser) == old[1],
+               'split-event': (lambda strip_space, old, trace: trace.append(
+                   ('split', {'s': current_line_rest(old[1], old[0]).strip() if strip_space
+                   else current_line_rest(old[1], old[0])})), 'effect'),
+           },
+           raises_only=())
+
+
+def _tp_state(token_parser):
+    ts = token_parser._token_stream
+    return ts._head_token, ts._source_io.pos, ts._source, ts._start_pos
+
+
+def here_doc_body_events(old, token_parser, trace):
+    """the one string that is split into fragments is the text between the line after the header token's line
+    and the first line that is exactly the marker (the header token's characters after `<<`)"""
+    marker = old[0][1][2:]
+    header_rest = current_line_rest(old[2], old[1])
+    return (len(split_events(trace)) == 1
+            and split_events(trace)[0][1]['s'] == old[2][old[1] + len(header_rest) + 1:
+                                                         _hd_pos(token_parser) - len(marker)])
+
+
+M.contract(P_RS + ':HereDocParser.parse_from_token_parser', params=dict(self=HDP, token_parser=TP),
+           old=lambda token_parser: _tp_state(token_parser),
+           modifies=_TS_FRAME,
+           raises={SingleInstructionInvalidArgumentException: {}},
+           returns=Opt(Any_),
+           ensures={
+               'absent-only-if-optional-and-at-end-of-line': lambda self, token_parser, old, result:
+               result is not None or ((not self._here_document_is_mandatory)
+                                      and current_line_rest(old[2], old[3]).strip() == ''
+                                      and _hd_pos(token_parser) == old[3]),
+               'a-quoted-token-is-not-a-here-document': lambda old, result:
+               result is None or (old[0] is not None and old[0][0] is TokenType.PLAIN),
+               'marker-syntax': lambda old, result:
+               result is None or (old[0][1].startswith('<<') and len(old[0][1]) >= 3),
+               'rest-of-the-header-line-is-blank': lambda old, result:
+               result is None or current_line_rest(old[2], old[1]).strip() == '',
+               'contents': (lambda token_parser, old, result, trace:
+                            result is None or here_doc_body_events(old, token_parser, trace), 'internal'),
+               'stops-at-the-end-of-the-marker-line': lambda token_parser, old, result:
+               result is None or (current_line_rest(old[2], _hd_pos(token_parser) - len(old[0][1][2:]))
+                                  == old[0][1][2:]),
+               'split-event': (lambda token_parser, old, result, trace:
+                               None if result is None else trace.append(
+                                   ('split', {'s': old[2][old[1] + len(current_line_rest(old[2], old[1])) + 1:
+                                                          _hd_pos(token_parser) - len(old[0][1][2:])]})), 'effect'),
+           },
+           raises_only=())
+
+
+SNOSRSP = Inst(SymbolNameOrStringRichStringParser, _conf=CONF, _plain_string_parser=SROSP,
+               _here_doc_parser=Inst(HereDocParser, _here_document_is_mandatory=Const(True),
+                                     _consume_last_line_if_is_at_eol_after_parse=Bool,
+                                     _consume_last_line_if_is_at_eof_after_parse=Bool),
+               _consume_last_line_if_is_at_eol_after_parse=Bool, _consume_last_line_if_is_at_eof_after_parse=Bool)
+
+
+def rich_string_form(head):
+    """which documented form a rich string starting with token `head` has"""
+    if head[0] is TokenType.PLAIN and head[2].startswith('<<'):
+        return 'here-document'
+    if head[0] is TokenType.PLAIN and head[1] == ':>':
+        return 'text-until-end-of-line'
+    return 'string'
+
+
+M.contract(P_RS + ':SymbolNameOrStringRichStringParser.parse_from_token_parser',
+           params=dict(self=SNOSRSP, token_parser=TP),
+           old=lambda token_parser: _tp_state(token_parser),
+           modifies=_TS_FRAME,
+           raises={SingleInstructionInvalidArgumentException: {}},
+           returns=Any_,
+           ensures={
+               'has-a-head-token': lambda old: old[0] is not None,
+               # quoted tokens are strings, whatever they contain (so '<<EOF' and ":>" are ordinary strings)
+               'string': (lambda token_parser, old, trace:
+                          rich_string_form(old[0]) != 'string' or (
+                                  len(consume_events(trace)) == 1 and consume_events(trace)[0][2] is old[0]
+                                  and _hd_pos(token_parser) == old[1] and not head_is_reserved(old[0])),
+                          'internal'),
+               'text-until-end-of-line': (lambda token_parser, old, trace:
+                                          rich_string_form(old[0]) != 'text-until-end-of-line' or (
+                                                  len(split_events(trace)) == 1
+                                                  and split_events(trace)[0][1]['s']
+                                                  == current_line_rest(old[2], old[1]).strip()
+                                                  and _hd_pos(token_parser)
+                                                  == old[1] + len(current_line_rest(old[2], old[1]))),
+                                          'internal'),
+               'here-document': (lambda token_parser, old, trace:
+                                 rich_string_form(old[0]) != 'here-document' or (
+                                         here_doc_body_events(old, token_parser, trace)
+                                         and current_line_rest(old[2], old[1]).strip() == ''
+                                         and current_line_rest(old[2], _hd_pos(token_parser) - len(old[0][1][2:]))
+                                         == old[0][1][2:]),
+                                 'internal'),
+           },
+           raises_only=())
+
+
+# ------------------------------------------------------------------------------ bounded stand-in: the lexer
+# TokenStream.__init__/consume interleave shlex.get_token with StringIO.tell/seek: shlex is a character-level
+# state machine of the standard library whose contract *is* the property.  The real TokenStream is run on every
+# source up to a bound over a small alphabet against the independent reader of the documented syntax below.
+
+def reference_tokens(source):
+    """The documented syntax (help: STRING): tokens are separated by white space; a token is one or more
+    fragments side by side; a fragment is naked (characters other than white space and quotes), soft-quoted
+    "..." or hard-quoted '...' (any characters, also line breaks, up to the next same quote character).
+    There is no escape character and there are no comments inside instructions.
+    Returns (tokens, error): tokens = [(string, source_string, start, end)], error = True when a quote is not
+    terminated (the tokens before it are still returned)."""
+    white = ' \t\r\n'
+    quotes = '\'"'
+    i, n = 0, len(source)
+    tokens = []
+    while True:
+        while i < n and source[i] in white:
+            i += 1
+        if i == n:
+            return tokens, False
+        start = i
+        chars = []
+        while i < n and source[i] not in white:
+            c = source[i]
+            if c in quotes:
+                j = source.find(c, i + 1)
+                if j == -1:
+                    return tokens, True
+                chars.append(source[i + 1:j])
+                i = j + 1
+            else:
+                chars.append(c)
+                i += 1
+        tokens.append((''.join(chars), source[start:i], start, i))
+
+
+def _observe_token_stream(source):
+    """runs the real TokenStream on source; returns a list of problems (empty = conforms)"""
+    problems = []
+    expected, expected_error = reference_tokens(source)
+    ts = TokenStream(source)
+    k = 0
+    prev_end = 0
+    while True:
+        # --- position / remaining source: nothing of the consumed tokens, everything of the rest, and the line
+        #     structure is kept: no line break between the previous token and the position is skipped
+        pos = ts.position
+        next_start = expected[k][2] if k < len(expected) else None
+        if next_start is None and expected_error:
+            next_start = len(source) - len(source[prev_end:].lstrip(' \t\r\n'))
+        upper = next_start if next_start is not None else len(source)
+        if not (prev_end <= pos <= upper):
+            problems.append('position %d not in [%d, %d] before token %d' % (pos, prev_end, upper, k))
+        elif '\n' in source[prev_end:pos]:
+            problems.append('a line break was skipped: position %d after token ending at %d' % (pos, prev_end))
+        if ts.remaining_source != source[pos:]:
+            problems.append('remaining_source is not source[position:]')
+        # --- the assumed contract of consume (frame / invariant), observed
+        if not (ts._start_pos <= len(source) and ts._source_io.tell() <= len(source)):
+            problems.append('position beyond the end')
+        if ts._head_token is not None and ts._head_syntax_error_description:
+            problems.append('head token and pending syntax error at the same time')
+        state = ts.look_ahead_state
+        if k < len(expected):
+            if state is not LookAheadState.HAS_TOKEN:
+                problems.append('token %d %r missing (state %s)' % (k, expected[k][1], state.name))
+                break
+            head = ts.head
+            if (head.string, head.source_string) != (expected[k][0], expected[k][1]):
+                problems.append('token %d is (%r, %r), expected (%r, %r)'
+                                % (k, head.string, head.source_string, expected[k][0], expected[k][1]))
+                break
+            if not token_wf(head):
+                problems.append('token %d violates the token invariant' % k)
+            io_pos = ts._source_io.tell()
+            returned = ts.consume()
+            if returned is not head:
+                problems.append('consume did not return the head')
+            if ts._start_pos != io_pos:
+                problems.append('start position is not the lexer position')
+            prev_end = expected[k][3]
+            k += 1
+            continue
+        if expected_error:
+            if state is not LookAheadState.SYNTAX_ERROR:
+                problems.append('unterminated quote not reported (state %s)' % state.name)
+            else:
+                try:
+                    ts.consume()
+                    problems.append('consume does not raise on a syntax error')
+                except _ts.TokenSyntaxError:
+                    pass
+        elif state is not LookAheadState.NULL:
+            problems.append('extra token/state %s after the last token' % state.name)
+        break
+    return problems
+
+
+_REPLAY_TEMPLATE = """
+from contracts.C09_strings import _observe_token_stream
+problems = _observe_token_stream(%r)
+print(problems)
+sys.exit(1 if problems else 0)
+"""
+
+
+def _run_bounded(ctx, name, alphabet, max_len, sample=0, sample_len=(0, 0)):
+    import itertools
+    import random
+    failures = []
+    cases = 0
+    for n in range(0, max_len + 1):
+        for tup in itertools.product(alphabet, repeat=n):
+            src = ''.join(tup)
+            cases += 1
+            try:
+                problems = _observe_token_stream(src)
+            except Exception as e:       # an exception of the real code is a finding, not a checker error
+                problems = ['exception %r' % (e,)]
+            if problems:
+                failures.append({'input': src, 'expected': 'tokens of the documented syntax',
+                                 'actual': '; '.join(problems[:3]), 'replay': _REPLAY_TEMPLATE % src})
+    rnd = random.Random(ctx.seed)
+    for _ in range(sample):
+        n = rnd.randint(*sample_len)
+        src = ''.join(rnd.choice(alphabet) for _ in range(n))
+        cases += 1
+        try:
+            problems = _observe_token_stream(src)
+        except Exception as e:
+            problems = ['exception %r' % (e,)]
+        if problems:
+            failures.append({'input': src, 'expected': 'tokens of the documented syntax',
+                             'actual': '; '.join(problems[:3]), 'replay': _REPLAY_TEMPLATE % src})
+    ctx.bounded_result(name, 'all sources of length <= %d over %r%s' % (
+        max_len, alphabet, (' + %d random sources of length %d..%d (seed %d)' % (
+            sample, sample_len[0], sample_len[1], ctx.seed)) if sample else ''),
+                       cases, exhaustive=(sample == 0), failures=failures,
+                       note='real TokenStream vs. independent reader of the documented token syntax: token strings, '
+                            'source strings, types, positions, remaining_source, syntax errors, and the assumed '
+                            'frame contract of consume')
+
+
+_ALPHABET = 'a \'"@[]\\\né-'        # without '#': see the next stand-in
+
+
+@M.bounded('TokenStream.consume (token boundaries)')
+def _bounded_consume(ctx):
+    if ctx.tier == 'thorough':
+        _run_bounded(ctx, 'TokenStream.consume', _ALPHABET, 6, sample=200000, sample_len=(7, 10))
+    else:
+        _run_bounded(ctx, 'TokenStream.consume', _ALPHABET, 4, sample=20000, sample_len=(5, 9))
+
+
+@M.bounded('TokenStream.consume (sources with #)')
+def _bounded_consume_hash(ctx):
+    # every failure here is an instance of the known finding "'#' stays a shlex comment character"
+    _run_bounded(ctx, 'TokenStream.consume with #', 'a #\'\n', 5 if ctx.tier == 'thorough' else 4)
